@@ -35,6 +35,11 @@ Theorem c02_dinucleotide_shuffle_obs : forall X start end_ n,
 Proof. exact dinuc_obs_spec. Qed.
 Print Assumptions c02_dinucleotide_shuffle_obs.
 
+Theorem c02_shuffle_obs : forall X start end_ n,
+  spec_ok (CShufObs X start end_ n) (model (CShufObs X start end_ n)) = true.
+Proof. exact shuf_obs_spec. Qed.
+Print Assumptions c02_shuffle_obs.
+
 (* walk_never_stranded: for EVERY sequence s over an alphabet of size A and EVERY family sigma of
    permutations that leave the last successor slot of each character in place, the walk never
    reads past a successor list: it returns, having visited exactly L positions (L-1 steps) *)
